@@ -3,6 +3,556 @@ From Chihaya Require Import Model.Bencode.
 From Coq Require Import ZifyBool ZifyNat.
 Open Scope Z_scope.
 
+(* ------------------------------------------------------------ induction on values *)
+
+Section BvalInd.
+  Variable P : bval -> Prop.
+  Hypothesis HI : forall z, P (BInt z).
+  Hypothesis HS : forall s, P (BStr s).
+  Hypothesis HL : forall l, (forall x, In x l -> P x) -> P (BList l).
+  Hypothesis HD : forall d, (forall k x, In (k, x) d -> P x) -> P (BDict d).
+  Fixpoint bval_ind' (v : bval) : P v :=
+    match v with
+    | BInt z => HI z
+    | BStr s => HS s
+    | BList l =>
+      HL l ((fix go (l : list bval) : forall x, In x l -> P x :=
+               match l with
+               | [] => fun x (H : In x []) => match H with end
+               | y :: r => fun x (H : In x (y :: r)) =>
+                             match H with
+                             | or_introl E => eq_ind y P (bval_ind' y) x E
+                             | or_intror H' => go r x H'
+                             end
+               end) l)
+    | BDict d =>
+      HD d ((fix go (d : list (bytes * bval)) : forall k x, In (k, x) d -> P x :=
+               match d with
+               | [] => fun k x (H : In (k, x) []) => match H with end
+               | (k', y) :: r => fun k x (H : In (k, x) ((k', y) :: r)) =>
+                             match H with
+                             | or_introl E => eq_ind y P (bval_ind' y) x (f_equal snd E)
+                             | or_intror H' => go r k x H'
+                             end
+               end) d)
+    end.
+End BvalInd.
+
+(* ------------------------------------------------------------ decimal text *)
+
+Lemma pdig_acc_app acc a b : pdig_acc acc (a ++ b) = pdig_acc (pdig_acc acc a) b.
+Proof. unfold pdig_acc. apply fold_left_app. Qed.
+
+Lemma is_digit_iff b : is_digit b = true <-> 48 <= b <= 57.
+Proof. unfold is_digit. lia. Qed.
+
+Lemma udigits_digits f n : 0 <= n -> forallb is_digit (udigits f n) = true.
+Proof.
+  revert n; induction f as [|f IH]; intros n Hn; cbn [udigits]; [reflexivity|].
+  destruct (Z.ltb_spec n 10) as [L|L].
+  - cbn [forallb]. rewrite andb_true_r. apply is_digit_iff. lia.
+  - rewrite forallb_app, IH by (apply Z.div_pos; lia). cbn [forallb]. rewrite andb_true_r.
+    apply is_digit_iff. pose proof (Z.mod_pos_bound n 10). lia.
+Qed.
+
+Lemma udigits_val f n : 0 <= n < 10 ^ Z.of_nat f -> pdig_acc 0 (udigits f n) = n.
+Proof.
+  revert n; induction f as [|f IH]; intros n Hn.
+  - change (10 ^ Z.of_nat 0) with 1 in Hn. unfold pdig_acc. cbn [udigits fold_left]. lia.
+  - cbn [udigits]. destruct (Z.ltb_spec n 10) as [L|L].
+    + unfold pdig_acc. cbn [fold_left]. lia.
+    + rewrite pdig_acc_app, IH.
+      * unfold pdig_acc. cbn [fold_left]. pose proof (Z.div_mod n 10). lia.
+      * rewrite Nat2Z.inj_succ, Z.pow_succ_r in Hn by lia. split.
+        -- apply Z.div_pos; lia.
+        -- apply Z.div_lt_upper_bound; lia.
+Qed.
+
+Lemma udigits_length f n : (length (udigits f n) <= f)%nat.
+Proof.
+  revert n; induction f as [|f IH]; intros n; cbn [udigits]; [cbn; lia|].
+  destruct (n <? 10); [cbn; lia|]. rewrite app_length. cbn [length]. specialize (IH (n / 10)). lia.
+Qed.
+
+Lemma udigits_head f n : 0 <= n -> exists b t, udigits (S f) n = b :: t /\ is_digit b = true.
+Proof.
+  intros Hn. pose proof (udigits_digits (S f) n Hn) as D.
+  destruct (udigits (S f) n) as [|b t] eqn:E.
+  - exfalso. cbn [udigits] in E. destruct (n <? 10); [discriminate|].
+    destruct (udigits f (n / 10)); discriminate.
+  - exists b, t. split; [reflexivity|]. cbn [forallb] in D. apply andb_true_iff in D. tauto.
+Qed.
+
+Lemma fmt_uint_head n : 0 <= n -> exists b t, fmt_uint n = b :: t /\ is_digit b = true.
+Proof. apply udigits_head. Qed.
+
+Lemma parse_int_digits ds :
+  ds <> [] -> forallb is_digit ds = true -> - 2 ^ 63 <= pdig_acc 0 ds < 2 ^ 63 ->
+  parse_int ds = Some (pdig_acc 0 ds).
+Proof.
+  intros Hne Hd Hr. destruct ds as [|b r]; [congruence|].
+  unfold parse_int. pose proof Hd as Hd'. cbn [forallb] in Hd'. apply andb_true_iff in Hd' as [Hb _].
+  apply is_digit_iff in Hb.
+  destruct (Z.eqb_spec b 45); [lia|]. destruct (Z.eqb_spec b 43); [lia|].
+  rewrite Hd.
+  destruct ((- 2 ^ 63 <=? pdig_acc 0 (b :: r)) && (pdig_acc 0 (b :: r) <? 2 ^ 63)) eqn:E; [reflexivity|lia].
+Qed.
+
+Lemma parse_int_neg ds :
+  ds <> [] -> forallb is_digit ds = true -> - 2 ^ 63 <= - pdig_acc 0 ds < 2 ^ 63 ->
+  parse_int (45 :: ds) = Some (- pdig_acc 0 ds).
+Proof.
+  intros Hne Hd Hr. unfold parse_int. rewrite Z.eqb_refl.
+  destruct ds as [|b r]; [congruence|]. rewrite Hd.
+  destruct ((- 2 ^ 63 <=? - pdig_acc 0 (b :: r)) && (- pdig_acc 0 (b :: r) <? 2 ^ 63)) eqn:E; [reflexivity|lia].
+Qed.
+
+Definition int64 (z : Z) : Prop := - 2 ^ 63 <= z < 2 ^ 63.
+
+Lemma pow10_20 : 2 ^ 63 < 10 ^ Z.of_nat 20.
+Proof. vm_compute. reflexivity. Qed.
+
+Lemma fmt_uint_ne n : 0 <= n -> fmt_uint n <> [].
+Proof. intros H. destruct (fmt_uint_head n H) as (b & t & E & _). rewrite E. discriminate. Qed.
+
+(* ParseInt (FormatInt z) = z *)
+Lemma parse_fmt_int z : int64 z -> parse_int (fmt_int z) = Some z.
+Proof.
+  intros Hz. unfold int64 in Hz. pose proof pow10_20 as P. unfold fmt_int.
+  destruct (Z.ltb_spec z 0) as [L|L].
+  - replace (Some z) with (Some (- pdig_acc 0 (fmt_uint (- z)))).
+    + apply parse_int_neg.
+      * apply fmt_uint_ne. lia.
+      * apply udigits_digits. lia.
+      * unfold fmt_uint. rewrite udigits_val by lia. lia.
+    + unfold fmt_uint. rewrite udigits_val by lia. f_equal; lia.
+  - replace (Some z) with (Some (pdig_acc 0 (fmt_uint z))).
+    + apply parse_int_digits.
+      * apply fmt_uint_ne. lia.
+      * apply udigits_digits. lia.
+      * unfold fmt_uint. rewrite udigits_val by lia. lia.
+    + unfold fmt_uint. rewrite udigits_val by lia. reflexivity.
+Qed.
+
+(* the text of a number: at most 21 characters, none of them ':' or 'e' *)
+Lemma fmt_int_chars z : Forall (fun b => b = 45 \/ is_digit b = true) (fmt_int z).
+Proof.
+  unfold fmt_int. destruct (Z.ltb_spec z 0) as [L|L].
+  - constructor; [left; reflexivity|]. apply Forall_forall. intros b Hb. right.
+    pose proof (udigits_digits 20 (- z) ltac:(lia)) as D. rewrite forallb_forall in D. apply D, Hb.
+  - apply Forall_forall. intros b Hb. right.
+    pose proof (udigits_digits 20 z L) as D. rewrite forallb_forall in D. apply D, Hb.
+Qed.
+
+Lemma fmt_int_length z : (length (fmt_int z) <= 21)%nat.
+Proof.
+  unfold fmt_int, fmt_uint. destruct (z <? 0); cbn [length].
+  - pose proof (udigits_length 20 (- z)). lia.
+  - pose proof (udigits_length 20 z). lia.
+Qed.
+
+Lemma fmt_int_ne z : fmt_int z <> [].
+Proof.
+  unfold fmt_int. destruct (Z.ltb_spec z 0) as [L|L]; [discriminate|]. apply fmt_uint_ne, L.
+Qed.
+
+(* ------------------------------------------------------------ fields *)
+
+Lemma split_at_app t n f r :
+  (length f < n)%nat -> Forall (fun b => b <> t) f -> split_at t n (f ++ t :: r) = Some (f, r).
+Proof.
+  revert n; induction f as [|b f IH]; intros n Hn Hf.
+  - destruct n; [cbn in Hn; lia|]. cbn [split_at app]. rewrite Z.eqb_refl. reflexivity.
+  - destruct n; [cbn in Hn; lia|]. cbn [split_at app]. inversion Hf as [|? ? Hb Hf']; subst.
+    destruct (Z.eqb_spec b t); [contradiction|]. rewrite IH; [reflexivity| cbn [length] in Hn; lia | assumption].
+Qed.
+
+Lemma read_int_fmt t z r :
+  t = 58 \/ t = 101 -> int64 z -> read_int t (fmt_int z ++ t :: r) = Some (z, r).
+Proof.
+  intros Ht Hz. unfold read_int. rewrite split_at_app.
+  - pose proof (fmt_int_ne z). destruct (fmt_int z) eqn:E; [congruence|]. rewrite <- E.
+    rewrite parse_fmt_int by assumption. reflexivity.
+  - pose proof (fmt_int_length z). unfold bufsize. lia.
+  - eapply Forall_impl; [|apply fmt_int_chars]. intros b [Hb|Hb]; [lia|]. apply is_digit_iff in Hb. lia.
+Qed.
+
+Lemma takeZ_app a r : takeZ (a ++ r) (Z.of_nat (length a)) = Some (a, r).
+Proof.
+  induction a as [|x a IH].
+  - cbn [app length]. destruct r; reflexivity.
+  - cbn [app length takeZ]. destruct (Z.leb_spec (Z.of_nat (S (length a))) 0); [lia|].
+    replace (Z.of_nat (S (length a)) - 1) with (Z.of_nat (length a)) by lia. rewrite IH. reflexivity.
+Qed.
+
+Lemma takeZ_some s n a r : takeZ s n = Some (a, r) -> s = a ++ r /\ (0 <= n -> Z.of_nat (length a) = n).
+Proof.
+  revert n a r; induction s as [|b s IH]; intros n a r H.
+  - cbn [takeZ] in H. destruct (Z.leb_spec n 0); inversion H; subst. split; [reflexivity|cbn; lia].
+  - cbn [takeZ] in H. destruct (Z.leb_spec n 0).
+    + inversion H; subst. split; [reflexivity|cbn; lia].
+    + destruct (takeZ s (n - 1)) as [[a' r']|] eqn:E; [|discriminate]. inversion H; subst.
+      apply IH in E as [E1 E2]. split; [cbn; congruence|]. intros _. cbn [length]. lia.
+Qed.
+
+Lemma strb_len s : strb s = true -> int64 (Z.of_nat (length s)).
+Proof. unfold strb, int64. lia. Qed.
+
+Lemma read_str_enc s r :
+  strb s = true -> read_str (enc_str s ++ r) = (Ok s r, Z.of_nat (length s)).
+Proof.
+  intros Hs. unfold read_str, enc_str. rewrite <- app_assoc. cbn [app].
+  rewrite read_int_fmt by (auto using strb_len).
+  destruct (Z.ltb_spec (Z.of_nat (length s)) 0); [lia|]. rewrite takeZ_app. reflexivity.
+Qed.
+
+Lemma enc_str_head s : exists b t, enc_str s = b :: t /\ is_digit b = true.
+Proof.
+  unfold enc_str, fmt_int. destruct (Z.ltb_spec (Z.of_nat (length s)) 0); [lia|].
+  destruct (fmt_uint_head (Z.of_nat (length s)) ltac:(lia)) as (b & t & E & D).
+  rewrite E. exists b, (t ++ 58 :: s). split; [reflexivity|exact D].
+Qed.
+
+(* ------------------------------------------------------------ one step of the decoder *)
+
+Lemma dec_int f r : dec (S f) (105 :: r) =
+  match read_int 101 r with Some (z, r') => (Ok (BInt z) r', 0) | None => (Err, 0) end.
+Proof. reflexivity. Qed.
+Lemma dec_list f r : dec (S f) (108 :: r) =
+  match items (dec f) f r [] 0 with (Ok l r', a) => (Ok (BList l) r', a) | (o, a) => (refail o, a) end.
+Proof. reflexivity. Qed.
+Lemma dec_dict f r : dec (S f) (100 :: r) =
+  match pairs (dec f) f r [] 0 with (Ok d r', a) => (Ok (BDict d) r', a) | (o, a) => (refail o, a) end.
+Proof. reflexivity. Qed.
+Lemma dec_other f b r : b <> 105 -> b <> 108 -> b <> 100 -> dec (S f) (b :: r) =
+  match read_str (b :: r) with (Ok str r', a) => (Ok (BStr str) r', a) | (o, a) => (refail o, a) end.
+Proof.
+  intros H1 H2 H3. cbn [dec].
+  destruct (Z.eqb_spec b 105); [contradiction|]. destruct (Z.eqb_spec b 108); [contradiction|].
+  destruct (Z.eqb_spec b 100); [contradiction|]. reflexivity.
+Qed.
+
+Lemma dec_str_enc f s r :
+  strb s = true -> dec (S f) (enc_str s ++ r) = (Ok (BStr s) r, Z.of_nat (length s)).
+Proof.
+  intros Hs. destruct (enc_str_head s) as (b & t & E & D). apply is_digit_iff in D.
+  pose proof (read_str_enc s r Hs) as R. rewrite E in *. cbn [app] in *.
+  rewrite dec_other by lia. rewrite R. reflexivity.
+Qed.
+
+Lemma bencode_head v : exists b t, bencode v = b :: t /\ b <> 101.
+Proof.
+  destruct v as [z|s|l|d]; cbn [bencode].
+  - eexists _, _. split; [reflexivity|lia].
+  - destruct (enc_str_head s) as (b & t & E & D). apply is_digit_iff in D. exists b, t. split; [exact E|lia].
+  - eexists _, _. split; [reflexivity|lia].
+  - eexists _, _. split; [reflexivity|lia].
+Qed.
+
+Lemma bencode_length_pos v : (1 <= length (bencode v))%nat.
+Proof. destruct (bencode_head v) as (b & t & E & _). rewrite E. cbn. lia. Qed.
+
+Lemma items_step d n x R acc al :
+  items d (S n) (bencode x ++ R) acc al =
+  match d (bencode x ++ R) with
+  | (Ok v s', a) => items d n s' (v :: acc) (al + a)
+  | (o, a) => (refail o, al + a)
+  end.
+Proof.
+  destruct (bencode_head x) as (b & t & E & Hb). rewrite E. cbn [items app].
+  destruct (Z.eqb_spec b 101); [contradiction|]. reflexivity.
+Qed.
+
+Lemma items_end d n R acc al : items d (S n) (101 :: R) acc al = (Ok (rev acc) R, al).
+Proof. reflexivity. Qed.
+
+Definition sum_str (l : list bval) : Z := fold_right (fun x a => strbytes x + a) 0 l.
+
+Lemma items_enc d l :
+  (forall x, In x l -> forall R, d (bencode x ++ R) = (Ok x R, strbytes x)) ->
+  forall n acc al R, (length l < n)%nat ->
+  items d n (flat_map bencode l ++ 101 :: R) acc al = (Ok (rev acc ++ l) R, al + sum_str l).
+Proof.
+  induction l as [|x l IH]; intros Hd n acc al R Hn.
+  - destruct n; [lia|]. cbn [flat_map app]. rewrite items_end. rewrite app_nil_r. cbn. f_equal; lia.
+  - destruct n; [cbn in Hn; lia|]. cbn [flat_map]. rewrite <- app_assoc. rewrite items_step.
+    rewrite Hd by (left; reflexivity).
+    rewrite IH; [| intros y Hy; apply Hd; right; exact Hy | cbn [length] in Hn; lia].
+    cbn [rev]. rewrite <- app_assoc. cbn [app]. unfold sum_str. cbn [fold_right]. f_equal; lia.
+Qed.
+
+(* ---- dictionaries *)
+
+Lemma keys_nodup_NoDup ks : keys_nodup ks = true -> NoDup ks.
+Proof.
+  induction ks as [|k r IH]; intros H; [constructor|].
+  cbn [keys_nodup] in H. apply andb_true_iff in H as [H1 H2]. constructor; [|auto].
+  intros Hin. apply negb_true_iff in H1. assert (existsb (bytes_eqb k) r = true); [|congruence].
+  apply existsb_exists. exists k. split; [exact Hin|apply bytes_eqb_refl].
+Qed.
+
+Lemma dict_put_fresh k x acc : ~ In k (map fst acc) -> dict_put k x acc = acc ++ [(k, x)].
+Proof.
+  induction acc as [|[k' v'] acc IH]; intros H; [reflexivity|].
+  cbn [dict_put app]. cbn [map fst In] in H.
+  destruct (bytes_eqb k k') eqn:E.
+  - apply bytes_eqb_eq in E. subst. tauto.
+  - rewrite IH by tauto. reflexivity.
+Qed.
+
+Definition pair_enc (kv : bytes * bval) : bytes := match kv with (k, x) => enc_str k ++ bencode x end.
+Definition sum_pairs (l : list (bytes * bval)) : Z :=
+  fold_right (fun kv a => match kv with (k, x) => Z.of_nat (length k) + strbytes x + a end) 0 l.
+
+Lemma pairs_step d n k x R acc al :
+  d (enc_str k ++ bencode x ++ R) = (Ok (BStr k) (bencode x ++ R), Z.of_nat (length k)) ->
+  d (bencode x ++ R) = (Ok x R, strbytes x) ->
+  pairs d (S n) (enc_str k ++ bencode x ++ R) acc al =
+  pairs d n R (dict_put k x acc) (al + Z.of_nat (length k) + strbytes x).
+Proof.
+  intros H1 H2. destruct (enc_str_head k) as (b & t & E & D). apply is_digit_iff in D.
+  rewrite E in *. cbn [app] in *. cbn [pairs].
+  destruct (Z.eqb_spec b 101); [lia|]. rewrite H1, H2. reflexivity.
+Qed.
+
+Lemma pairs_enc d l :
+  (forall k x, In (k, x) l -> strb k = true /\ forall R, d (bencode x ++ R) = (Ok x R, strbytes x)) ->
+  (forall k R, strb k = true -> d (enc_str k ++ R) = (Ok (BStr k) R, Z.of_nat (length k))) ->
+  forall n acc al R, (length l < n)%nat -> NoDup (map fst (acc ++ l)) ->
+  pairs d n (flat_map pair_enc l ++ 101 :: R) acc al = (Ok (acc ++ l) R, al + sum_pairs l).
+Proof.
+  induction l as [|[k x] l IH]; intros Hd Hk n acc al R Hn Hnd.
+  - destruct n; [lia|]. cbn [flat_map app pairs]. rewrite app_nil_r. cbn. f_equal; lia.
+  - destruct n; [cbn in Hn; lia|]. cbn [flat_map pair_enc]. rewrite <- !app_assoc.
+    destruct (Hd k x (or_introl eq_refl)) as [Hsk Hx].
+    rewrite pairs_step; [| apply Hk, Hsk | apply Hx].
+    rewrite dict_put_fresh.
+    + rewrite IH.
+      * rewrite <- app_assoc. cbn [app]. unfold sum_pairs. cbn [fold_right]. f_equal; lia.
+      * intros k' x' Hin. apply Hd. right. exact Hin.
+      * exact Hk.
+      * cbn [length] in Hn. lia.
+      * rewrite <- app_assoc. cbn [app]. exact Hnd.
+    + rewrite map_app in Hnd. cbn [map fst] in Hnd. apply NoDup_remove_2 in Hnd.
+      intros Hin. apply Hnd. apply in_or_app. left. exact Hin.
+Qed.
+
+(* ------------------------------------------------------------ the round trip *)
+
+Lemma flat_map_length_ge {A} (f : A -> bytes) l :
+  (forall x, In x l -> (1 <= length (f x))%nat) ->
+  (length l <= length (flat_map f l))%nat /\ forall x, In x l -> (length (f x) <= length (flat_map f l))%nat.
+Proof.
+  induction l as [|y l IH]; intros H; [cbn; split; [lia|tauto]|].
+  cbn [flat_map length]. rewrite app_length.
+  destruct IH as [I1 I2]; [intros; apply H; right; assumption|].
+  pose proof (H y (or_introl eq_refl)). split; [lia|].
+  intros x [->|Hx]; [lia|]. specialize (I2 x Hx). lia.
+Qed.
+
+Lemma strbytes_list l : strbytes (BList l) = sum_str l.
+Proof. reflexivity. Qed.
+Lemma strbytes_dict d : strbytes (BDict d) = sum_pairs d.
+Proof. reflexivity. Qed.
+
+Lemma dec_bencode v : forall f R,
+  canonb v = true -> (length (bencode v) <= f)%nat ->
+  dec f (bencode v ++ R) = (Ok v R, strbytes v).
+Proof.
+  induction v as [z|s|l IH|d IH] using bval_ind'; intros f R Hc Hf.
+  - (* integer *)
+    cbn [bencode] in *. destruct f; [cbn in Hf; lia|]. cbn [app]. rewrite dec_int.
+    rewrite <- app_assoc. cbn [app]. rewrite read_int_fmt; [reflexivity|auto|].
+    cbn [canonb] in Hc. unfold int64. lia.
+  - (* string *)
+    cbn [bencode canonb] in *. destruct f; [pose proof (bencode_length_pos (BStr s)); cbn [bencode] in *; lia|].
+    rewrite dec_str_enc by assumption. reflexivity.
+  - (* list *)
+    cbn [bencode] in *. destruct f; [cbn in Hf; lia|]. cbn [app]. rewrite dec_list.
+    rewrite <- app_assoc. cbn [app].
+    cbn [length] in Hf. rewrite app_length in Hf. cbn [length] in Hf.
+    destruct (flat_map_length_ge bencode l) as [L1 L2]; [intros; apply bencode_length_pos|].
+    cbn [canonb] in Hc. rewrite forallb_forall in Hc.
+    rewrite items_enc.
+    + cbn [rev app]. rewrite strbytes_list. f_equal; lia.
+    + intros x Hx R'. apply IH; [exact Hx|apply Hc, Hx|]. specialize (L2 x Hx). lia.
+    + lia.
+  - (* dictionary *)
+    cbn [bencode] in *. destruct f; [cbn in Hf; lia|]. cbn [app]. rewrite dec_dict.
+    rewrite <- app_assoc. cbn [app].
+    cbn [length] in Hf. rewrite app_length in Hf. cbn [length] in Hf.
+    change (fun kv : bytes * bval => let (k, x) := kv in enc_str k ++ bencode x) with pair_enc in *.
+    destruct (flat_map_length_ge pair_enc d) as [L1 L2].
+    { intros [k x] _. cbn [pair_enc]. rewrite app_length. pose proof (bencode_length_pos x). lia. }
+    cbn [canonb] in Hc. apply andb_true_iff in Hc as [Hnd Hc]. rewrite forallb_forall in Hc.
+    destruct f.
+    { (* no fuel left inside: only the empty dictionary fits *)
+      destruct d as [|[k x] d]; [|exfalso].
+      - cbn in Hf. lia.
+      - specialize (L2 (k, x) (or_introl eq_refl)). cbn [pair_enc] in L2. rewrite app_length in L2.
+        pose proof (bencode_length_pos x). destruct (enc_str_head k) as (b & t & E & _). rewrite E in L2. cbn [length] in L2. lia. }
+    rewrite pairs_enc.
+    + cbn [app]. rewrite strbytes_dict. f_equal; lia.
+    + intros k x Hin. specialize (Hc (k, x) Hin). cbn in Hc. apply andb_true_iff in Hc as [Hk Hx].
+      split; [exact Hk|]. intros R'. apply (IH k x Hin); [exact Hx|].
+      specialize (L2 (k, x) Hin). cbn [pair_enc] in L2. rewrite app_length in L2. lia.
+    + intros k R' Hk. apply dec_str_enc, Hk.
+    + lia.
+    + cbn [app]. apply keys_nodup_NoDup, Hnd.
+Qed.
+
+(* round trip: every canonical value, any trailing bytes, fuel at least the
+   length of the encoding *)
+Theorem bdecode_bencode v rest fuel :
+  canonb v = true -> (length (bencode v) <= fuel)%nat ->
+  bdecode fuel (bencode v ++ rest) = Ok v rest.
+Proof. intros Hc Hf. unfold bdecode. rewrite dec_bencode by assumption. reflexivity. Qed.
+
+Theorem balloc_bencode v rest fuel :
+  canonb v = true -> (length (bencode v) <= fuel)%nat ->
+  balloc fuel (bencode v ++ rest) = strbytes v.
+Proof. intros Hc Hf. unfold balloc. rewrite dec_bencode by assumption. reflexivity. Qed.
+
+(* ------------------------------------------------------------ totality, allocation *)
+
+Lemma split_at_some t n s f r : split_at t n s = Some (f, r) -> s = f ++ t :: r.
+Proof.
+  revert s f r; induction n as [|n IH]; intros s f r H; [discriminate|].
+  destruct s as [|b s]; [discriminate|]. cbn [split_at] in H.
+  destruct (Z.eqb_spec b t).
+  - inversion H; subst. reflexivity.
+  - destruct (split_at t n s) as [[f' r']|] eqn:E; [|discriminate]. inversion H; subst.
+    apply IH in E. subst. reflexivity.
+Qed.
+
+Lemma read_int_some t s z r : read_int t s = Some (z, r) -> (length r < length s)%nat.
+Proof.
+  unfold read_int. destruct (split_at t bufsize s) as [[f r']|] eqn:E; [|discriminate].
+  apply split_at_some in E. destruct f; [discriminate|]. destruct (parse_int (z0 :: f)); [|discriminate].
+  intros H. inversion H; subst. rewrite app_length. cbn [length]. lia.
+Qed.
+
+(* what a well-behaved element decoder guarantees: it never panics, runs out of
+   fuel only on inputs of at least m bytes, consumes at least one byte, and
+   accounts for storage within the bytes it consumed (or, on failure, within
+   the input plus one reader buffer) *)
+Definition good (m : nat) (d : bytes -> dres bval) : Prop := forall s,
+  match d s with
+  | (Ok _ r, a) => (length r < length s)%nat /\ 0 <= a /\ a + Z.of_nat (length r) <= Z.of_nat (length s)
+  | (Err, a) => 0 <= a <= Z.of_nat (length s) + 4096
+  | (Panic, _) => False
+  | (OutOfFuel, a) => ~ (length s < m)%nat /\ 0 <= a <= Z.of_nat (length s) + 4096
+  end.
+
+Lemma items_good m d : good m d -> forall n s acc al,
+  match items d n s acc al with
+  | (Ok _ r, a) => (length r < length s)%nat /\ al <= a /\ (a - al) + Z.of_nat (length r) <= Z.of_nat (length s)
+  | (Err, a) => al <= a <= al + Z.of_nat (length s) + 4096
+  | (Panic, _) => False
+  | (OutOfFuel, a) => ~ ((length s < n)%nat /\ (length s < m)%nat) /\ al <= a <= al + Z.of_nat (length s) + 4096
+  end.
+Proof.
+  intros G. induction n as [|n IH]; intros s acc al.
+  - cbn [items]. lia.
+  - destruct s as [|b r]; [cbn [items length]; lia|]. cbn [items].
+    destruct (b =? 101); [cbn [length]; lia|].
+    pose proof (G (b :: r)) as Gs. destruct (d (b :: r)) as [[v s'| | |] a]; cbn [refail]; try (cbn [length] in *; lia).
+    specialize (IH s' (v :: acc) (al + a)).
+    destruct (items d n s' (v :: acc) (al + a)) as [[l r'| | |] a']; cbn [length] in *; lia.
+Qed.
+
+Lemma pairs_good m d : good m d -> forall n s acc al,
+  match pairs d n s acc al with
+  | (Ok _ r, a) => (length r < length s)%nat /\ al <= a /\ (a - al) + Z.of_nat (length r) <= Z.of_nat (length s)
+  | (Err, a) => al <= a <= al + Z.of_nat (length s) + 4096
+  | (Panic, _) => False
+  | (OutOfFuel, a) => ~ ((length s < n)%nat /\ (length s < m)%nat) /\ al <= a <= al + Z.of_nat (length s) + 4096
+  end.
+Proof.
+  intros G. induction n as [|n IH]; intros s acc al.
+  - cbn [pairs]. lia.
+  - destruct s as [|b r]; [cbn [pairs length]; lia|]. cbn [pairs].
+    destruct (b =? 101); [cbn [length]; lia|].
+    pose proof (G (b :: r)) as Gs. destruct (d (b :: r)) as [[k s1| | |] a1]; cbn [refail]; try (cbn [length] in *; lia).
+    destruct k as [z|k|l|dd]; try (cbn [length] in *; lia).
+    pose proof (G s1) as G1. destruct (d s1) as [[v s2| | |] a2]; cbn [refail]; try (cbn [length] in *; lia).
+    specialize (IH s2 (dict_put k v acc) (al + a1 + a2)).
+    destruct (pairs d n s2 (dict_put k v acc) (al + a1 + a2)) as [[l r'| | |] a']; cbn [length] in *; lia.
+Qed.
+
+Lemma read_str_good s :
+  match read_str s with
+  | (Ok _ r, a) => (length r < length s)%nat /\ 0 <= a /\ a + Z.of_nat (length r) <= Z.of_nat (length s)
+  | (Err, a) => 0 <= a <= Z.of_nat (length s) + 4096
+  | (Panic, _) => False
+  | (OutOfFuel, _) => False
+  end.
+Proof.
+  unfold read_str. destruct (read_int 58 s) as [[len r]|] eqn:E; [|lia].
+  apply read_int_some in E. destruct (Z.ltb_spec len 0); [lia|].
+  destruct (takeZ r len) as [[str r']|] eqn:T.
+  - apply takeZ_some in T as [T1 T2]. specialize (T2 ltac:(lia)). subst r. rewrite app_length in E. lia.
+  - unfold bufsize. destruct (Z.leb_spec len (Z.of_nat 4096)); lia.
+Qed.
+
+Lemma dec_good f : good f (dec f).
+Proof.
+  induction f as [|f IH]; intros s.
+  - cbn [dec]. lia.
+  - destruct s as [|b r]; [cbn [dec length]; lia|]. cbn [dec].
+    destruct (b =? 105).
+    { destruct (read_int 101 r) as [[z r']|] eqn:E; [|cbn [length]; lia].
+      apply read_int_some in E. cbn [length]. lia. }
+    destruct (b =? 108).
+    { pose proof (items_good f (dec f) IH f r [] 0) as G.
+      destruct (items (dec f) f r [] 0) as [[l r'| | |] a]; cbn [refail length] in *; lia. }
+    destruct (b =? 100).
+    { pose proof (pairs_good f (dec f) IH f r [] 0) as G.
+      destruct (pairs (dec f) f r [] 0) as [[l r'| | |] a]; cbn [refail length] in *; lia. }
+    pose proof (read_str_good (b :: r)) as G.
+    destruct (read_str (b :: r)) as [[str r'| | |] a]; cbn [refail length] in *; lia.
+Qed.
+
+(* for ALL input bytes: a value or an error - never a panic (and never out of
+   fuel once the fuel exceeds the input length) *)
+Theorem bdecode_total fuel s :
+  (length s < fuel)%nat ->
+  (exists v rest, bdecode fuel s = Ok v rest) \/ bdecode fuel s = Err.
+Proof.
+  intros Hf. pose proof (dec_good fuel s) as G. unfold bdecode.
+  destruct (dec fuel s) as [[v r| | |] a]; cbn [fst].
+  - left. eauto.
+  - right. reflexivity.
+  - contradiction.
+  - lia.
+Qed.
+
+Theorem bdecode_never_panics fuel s : bdecode fuel s <> Panic.
+Proof.
+  pose proof (dec_good fuel s) as G. unfold bdecode.
+  destruct (dec fuel s) as [[v r| | |] a]; cbn [fst]; try discriminate. contradiction.
+Qed.
+
+(* string storage is accounted only for bytes actually present: a successful
+   decode stores no more than the bytes it consumed; a failing one no more
+   than the input plus one reader buffer (a short string announced with a
+   length <= 4096 is allocated before it is read) *)
+Theorem bdecode_alloc_bounded fuel s :
+  0 <= balloc fuel s <= Z.of_nat (length s) + 4096 /\
+  forall v rest, bdecode fuel s = Ok v rest ->
+                 balloc fuel s + Z.of_nat (length rest) <= Z.of_nat (length s).
+Proof.
+  pose proof (dec_good fuel s) as G. unfold bdecode, balloc.
+  destruct (dec fuel s) as [[v r| | |] a]; cbn [fst snd]; (split; [try lia; try contradiction|]);
+    intros v' rest' H; inversion H; subst; lia.
+Qed.
+
+(* the hypotheses are satisfiable: a nested value with a dictionary *)
+Example bdecode_bencode_example :
+  let v := BDict [([98], BList [BInt (-7); BStr [0; 255]; BDict []]); ([97], BInt (2 ^ 63 - 1))] in
+  canonb v = true /\ bdecode 40 (bencode v ++ [1; 2; 3]) = Ok v [1; 2; 3].
+Proof. vm_compute. auto. Qed.
+
 (* ------------------------------------------------------------ the decoder before fix F9 *)
 
 (* "-1:" : make([]byte, -1) panics *)
